@@ -1457,42 +1457,66 @@ def r9(cx):
     c08_r7(cx)
 
 
-@RS.rule('C19.R10', 'K-PASS', 'the simulated pipe() allocates nothing when it fails: if the second descriptor cannot be allocated (EMFILE) the '
-         'first one is released, as pipe(2) does')
+@RS.rule('C19.R10', 'K-RES', 'the simulated pipe() allocates nothing when it fails: if the second descriptor cannot be allocated (EMFILE) the '
+         'first one is released, as pipe(2) does - every return of pipe() after the first successful allocation either hands the '
+         'descriptor to the caller (the Ok pair) or has passed a close of it (in the function, or in the error closure of the second '
+         'allocation); allocations made through private helpers (create_fd) are followed')
 def r10(cx):
     F = cx.F
     root = '<yash_env::system::r#virtual::VirtualSystem as yash_env::system::io::Pipe>::pipe'
     bodies = F.logical(root)
     cx.require(bodies, 'impl Pipe for VirtualSystem not found')
-    main = [b for b in bodies if b.fn == root][0]
-    cx.fn(main.fn)
+    base = [b for b in bodies if b.fn == root][0]
+    cx.fn(base.fn)
+    main = _kernel_inlined(F, base)
+    proc = 'yash_env::system::r#virtual::process::Process::'
+    allocs = Q.find_calls(main, [proc + 'open_fd', proc + 'open_fd_ge'])
+    cx.require(len(allocs) >= 2, 'expected two descriptor allocations (Process::open_fd / open_fd_ge, directly or through private helpers) '
+               'in the simulated pipe(), found %d' % len(allocs))
+    firsts = [x for x in allocs if all(main.dominates(x[0], y[0]) for y in allocs)]
+    cx.require(len(firsts) == 1, 'the allocations of the simulated pipe() are not ordered by dominance (anchor moved)')
+    fb, ft = firsts[0]
+    closers = [proc + 'close_fd', proc + 'close_fds', re.compile(r'BTreeMap::<K, V, A>::(remove|remove_entry|clear|retain)$')]
+    adaptors = [re.compile(r'^core::result::Result::<T, E>::(map_err|or_else|inspect_err|unwrap_or_else|map_or_else)$')]
+    notes = []
+
+    def release(tainted):
+        out = set()
+        # the descriptor is closed in the function
+        for blk, t in Q.find_calls(main, closers):
+            if any(Q.operand_local(a) in tainted for a in t['a'][1:]):
+                out.add(blk)
+                notes.append('closed at %s' % main.loc(t))
+        # ... or in a closure that captures it and runs when a later step fails
+        for blk, t in Q.find_calls(main, adaptors):
+            for a in t['a'][1:]:
+                l = Q.operand_local(a)
+                d = du.single_def(l) if l is not None else None
+                if l in tainted and d is not None and d[1] != 't' and d[2]['k'] == 'assign' and d[2]['rv']['k'] == 'agg':
+                    cb = F.bodies.get(d[2]['rv'].get('def'))
+                    if cb is not None and Q.find_calls(cb, closers):
+                        out.add(blk)
+                        cx.fn(cb.fn)
+                        notes.append('closed in the error closure of %s at %s' % (pp.callee(t).split(' [')[0].split('::')[-1], main.loc(t)))
+        # ... or handed to the caller in the Ok value
+        for blk, j, st in Q.find_aggregates(main, 'core::result::Result', 'Ok'):
+            if st['lhs']['l'] == 0 and any(Q.operand_local(o) in tainted for o in st['rv']['ops'] if isinstance(o, dict)):
+                out.add(blk)
+        return out
+
     du = Q.DefUse(main)
-    opens = Q.find_calls(main, ['yash_env::system::r#virtual::process::Process::open_fd'])
-    cx.require(len(opens) == 2, 'expected two Process::open_fd calls in the simulated pipe(), found %d' % len(opens))
-    opens.sort(key=lambda x: 0 if all(main.dominates(x[0], y[0]) for y in opens) else 1)
-    (fb, ft), (sb, st) = opens
-    released = False
-    how = 'not released'
-    # (a) a closure given to map_err / or_else / inspect_err on the second result closes the first descriptor
-    for ub, ut in main.calls():
-        if Q.callee_is(ut, [re.compile(r'^core::result::Result::<T, E>::(map_err|or_else|inspect_err)$')]) and \
-                Q.value_source(main, du, ut['a'][0]) is st:
-            clo = du.origin(ut['a'][1])
-            cb = F.bodies.get(clo['rv'].get('def')) if clo['k'] == 'agg' else None
-            if cb is not None and Q.find_calls(cb, ['yash_env::system::r#virtual::process::Process::close_fd']):
-                released, how = True, 'in the error closure of %s' % pp.callee(ut).split('::')[-1]
-                cx.fn(cb.fn)
-    # (b) or in the function itself, after the second allocation, off the success path
-    if not released:
-        oks = {blk for blk, j, s in Q.find_aggregates(main, 'core::result::Result', 'Ok') if s['lhs']['l'] == 0}
-        for cb2, ct in Q.find_calls(main, ['yash_env::system::r#virtual::process::Process::close_fd']):
-            if main.dominates(sb, cb2) and not any(main.dominates(cb2, o) for o in oks):
-                released, how = True, 'on the failure path at %s' % main.loc(ct)
-    cx.site('%s: first descriptor allocated at %s, second at %s; first released when the second fails: %s' % (main.fn, main.loc(ft), main.loc(st), how))
-    if not released:
+    leaks, tainted, rel, absent = Q.resource_leak_paths(F, main, fb, ft['dest']['l'], release,
+                                                        through_calls=Q.PROPAGATING_CALLS + adaptors)
+    handed = [blk for blk, j, st in Q.find_aggregates(main, 'core::result::Result', 'Ok') if st['lhs']['l'] == 0 and blk in rel]
+    cx.require(handed, 'the simulated pipe() no longer returns the first allocated descriptor in its Ok value (anchor moved)')
+    cx.site('%s: first descriptor allocated at %s, %d later allocation(s); every return after it hands the descriptor over or has released it '
+            '(%s): %s' % (main.fn, main.loc(ft), len(allocs) - 1, '; '.join(sorted(set(notes))) or 'no release found', not leaks))
+    if leaks:
+        ex = Q.leaking_exits(F, main, fb, rel, absent)
         cx.violation(root, 'first-fd-leaked', 'when the second descriptor of the simulated pipe() cannot be allocated the first one stays open: '
                      'the call returns EMFILE like pipe(2) but has consumed a descriptor slot, so a following open that succeeds on a real '
-                     'kernel fails in the simulator', loc=main.loc(st))
+                     'kernel fails in the simulator (and the shell, which treats a failed pipe() as "nothing allocated", leaks the '
+                     'descriptor)', loc=(ex[0]['loc'] if ex else main.loc(ft)), path=Q.render_path(main, leaks[0]))
 
 
 @RS.rule('C19.R6c', 'K-GUARD', 'open(O_CREAT) of the simulated kernel creates the file only: a missing (or non-directory) parent is ENOENT / ENOTDIR '
@@ -3743,3 +3767,267 @@ def r27(cx):
 
 RS.explanation += (' In the simulated kernel the NOFILE limit is compared with descriptor numbers only, never with the number of open '
                    'descriptors (R27).')
+
+
+# ---------------------------------------------------------------- added after seed wave 5 (C05-s10, C19-s10)
+def _const_fd_number(F, operand):
+    """Number of a named constant of type Fd (`const X: Fd = Fd(n)`), None when it cannot be evaluated."""
+    cdef = operand.get('cdef') if isinstance(operand, dict) else None
+    h = F.hir.get(cdef) if cdef else None
+    if h is None:
+        return None
+    try:
+        v = H.const_eval(h['body'])
+    except Exception:
+        return None
+    if isinstance(v, tuple) and len(v) == 3 and v[0] == 'ctor' and v[1] == FD_TY and len(v[2]) == 1:
+        v = v[2][0]
+    return v if isinstance(v, int) and not isinstance(v, bool) else None
+
+
+def _lower_bound_class(F, cx, body, du, t, idx, depth=4):
+    """Classify the lower-bound operand `t['a'][idx]` of an allocating call in `body`:
+    ('zero', n) | ('const', n or None, name) | ('caller', fn, param) | ('other', text).  A parameter of a function that is not a system
+    call is followed into the callers of that function."""
+    o = t['a'][idx]
+    n = _int_value(body, du, o)
+    org = du.origin(o)
+    named = o.get('cdef') or (org['o'].get('cdef') if org['k'] == 'const' else None)
+    if n is None and named:
+        n = _const_fd_number(F, o if o.get('cdef') else org['o'])
+    if n is not None:
+        return [('zero', n)] if n == 0 else [('const', n, named or str(n))]
+    if named:
+        return [('const', None, named)]
+    root = _fd_root(body, du, o) if Q.operand_place(o) is not None else None
+    if root is not None and 1 <= root <= body.argc and root not in du.defs and body.fn == body.root:
+        if body.root.startswith('<'):
+            return [('caller', body.root, root)]
+        if not depth:
+            return [('other', 'parameter chain too deep')]
+        out = []
+        callers = [(cb, cblk, ct) for cb, cblk, ct in F.callers_of(lambda names, ct_: body.root in names)
+                   if '::tests' not in cb.fn and '::tests' not in cb.root]
+        for cb, cblk, ct in callers:
+            cx.fn(cb.fn)
+            for c in _lower_bound_class(F, cx, cb, Q.DefUse(cb), ct, root - 1, depth - 1):
+                out.append(c + ((cb, ct),) if len(c) < 4 else c)
+        return out
+    return [('other', Q.operand_name(body, du, o) or 'a computed value')]
+
+
+@RS.rule('C19.R28', 'K-SIBLING', 'a simulated system call that allocates a descriptor on its own (open, opendir, open_tmpfile, pipe ..) takes the '
+         'LOWEST free one, as open(2) / pipe(2) / opendir(3) do: every allocation of the simulated kernel is Process::open_fd or '
+         'open_fd_ge with the lower bound 0; a lower bound other than 0 is only ever the argument the caller of the system call passed '
+         'for that purpose (dup = fcntl F_DUPFD: `to_min`) - otherwise `ulimit -n 10; echo dir/*` fails in the simulator only (EMFILE '
+         'with descriptors 3-9 free) and descriptor numbers differ between the two systems')
+def r28(cx):
+    F = cx.F
+    alloc_ge = PROCESS + '::open_fd_ge'
+    alloc = PROCESS + '::open_fd'
+    setfd = PROCESS + '::set_fd'
+    for f in (alloc_ge, alloc, setfd):
+        cx.require(f in F.bodies, '%s not found' % f)
+    dup = _impl_fn(F, VIRT, 'Dup::dup')
+    dup2 = _impl_fn(F, VIRT, 'Dup::dup2')
+    cx.require(dup is not None and dup2 is not None, 'VirtualSystem does not implement Dup::dup / Dup::dup2')
+
+    def nontest(cb):
+        return '::tests' not in cb.fn and '::tests' not in cb.root
+
+    # (1) the lower bound of every open_fd_ge
+    sites = [(cb, cblk, ct) for cb, cblk, ct in F.callers_of(lambda names, ct_: alloc_ge in names) if nontest(cb)]
+    cx.require(sites, 'nobody calls Process::open_fd_ge (anchor moved)')
+    nzero = ncaller = 0
+    for cb, cblk, ct in sorted(sites, key=lambda x: (x[0].fn, x[0].loc(x[2]))):
+        cx.fn(cb.fn)
+        du = Q.DefUse(cb)
+        for c in _lower_bound_class(F, cx, cb, du, ct, 1):
+            at_b, at_t = c[-1] if isinstance(c[-1], tuple) and len(c[-1]) == 2 and hasattr(c[-1][0], 'fn') else (cb, ct)
+            where = '%s at %s' % (_short(at_b.root), at_b.loc(at_t))
+            cx.cellcount(1)
+            if c[0] == 'zero':
+                nzero += 1
+                cx.site('%s: allocation with lower bound 0 (the lowest free descriptor)' % where)
+                continue
+            if c[0] == 'caller':
+                fn, par = c[1], c[2]
+                body = F.bodies[fn]
+                fdp = [p for p in range(1, body.argc + 1) if body.locals[p].get('ty') == FD_TY]
+                ok = fn == dup and len(fdp) == 2 and par == fdp[1]
+                cx.site('%s: allocation whose lower bound is the parameter `%s` of %s - the F_DUPFD minimum of dup: %s'
+                        % (where, body.local_name(par), _short(fn), ok))
+                if ok:
+                    ncaller += 1
+                    continue
+                cx.require(fn.startswith('<' + VIRT + ' as ') or fn == dup,
+                           '%s passes its parameter `%s` as the lower bound of a descriptor allocation: not a system call of the simulated '
+                           'kernel this rule knows' % (fn, body.local_name(par)))
+                cx.violation(at_b.root, 'allocation-lower-bound:param-%s' % body.local_name(par),
+                             'the simulated %s allocates its descriptor at or above its argument `%s`, which is not a lower bound the caller '
+                             'asked for: only dup (fcntl F_DUPFD) has one; every other system call returns the lowest free descriptor'
+                             % (_short(fn), body.local_name(par)), loc=at_b.loc(at_t))
+                continue
+            what = ('the constant %s%s' % (c[2], '' if c[1] is None else ' (= %d)' % c[1])) if c[0] == 'const' else c[1]
+            cx.site('%s: allocation with lower bound %s: NOT the lowest free descriptor' % (where, what))
+            cx.violation(at_b.root, 'allocation-lower-bound:%s' % (c[2].split('::')[-1] if c[0] == 'const' else 'computed'),
+                         'the simulated %s does not take the lowest free descriptor: it allocates at or above %s. open(2), pipe(2), '
+                         'opendir(3) and mkstemp(3) return the lowest free descriptor, so with a soft RLIMIT_NOFILE at or below that bound '
+                         '(`ulimit -n 10`) the call fails with EMFILE in the simulator although low descriptors are free (pathname '
+                         'expansion then silently returns the pattern), and descriptor numbers seen by scripts differ from a real system'
+                         % (_short(at_b.root), what), loc=at_b.loc(at_t))
+    cx.floor(nzero, 1, 'allocations at the lowest free descriptor (Process::open_fd)')
+    cx.floor(ncaller, 1, 'allocations at the F_DUPFD minimum (dup)')
+
+    # (2) who allocates: the system calls of the simulated kernel that reach open_fd (no lower bound to get wrong) - evidence, and the
+    #     explicit slots (set_fd): inside a system call only dup2's target
+    users = sorted({cb.root for cb, cblk, ct in F.callers_of(lambda names, ct_: alloc in names) if nontest(cb)})
+    cx.site('Process::open_fd (lowest free descriptor) is used by: %s' % ', '.join(_short(u) for u in users))
+    for cb, cblk, ct in F.callers_of(lambda names, ct_: setfd in names):
+        if not nontest(cb):
+            continue
+        cx.fn(cb.fn)
+        du = Q.DefUse(cb)
+        o = ct['a'][1]
+        root = _fd_root(cb, du, o) if Q.operand_place(o) is not None else None
+        cx.cellcount(1)
+        if cb.root == alloc_ge:
+            src = Q.value_source(cb, du, o)
+            fdp = [p for p in range(1, cb.argc + 1) if cb.locals[p].get('ty') == FD_TY]
+            ok = src is not None and bool(src['a']) and len(fdp) == 1 and cb.fn == cb.root and _fd_root(cb, du, src['a'][0]) == fdp[0]
+            cx.site('open_fd_ge: the slot filled at %s is computed by %s from the lower bound `%s`: %s'
+                    % (cb.loc(ct), pp.callee(src).split(' [')[0].split('::')[-1] if src else '?', 'min_fd', ok))
+            if not ok:
+                cx.violation(alloc_ge, 'slot-not-from-lower-bound', 'Process::open_fd_ge fills a slot that is not computed from its lower '
+                             'bound: the descriptor returned by dup / open is not the lowest free one at or above the minimum',
+                             loc=cb.loc(ct))
+            continue
+        if not cb.root.startswith('<' + VIRT + ' as '):
+            cx.site('%s: explicit slot at %s (not a system call: initial descriptor table)' % (_short(cb.root), cb.loc(ct)))
+            continue
+        body = F.bodies[cb.root]
+        fdp = [p for p in range(1, body.argc + 1) if body.locals[p].get('ty') == FD_TY]
+        ok = cb.fn == cb.root == dup2 and len(fdp) == 2 and root == fdp[1]
+        cx.site('%s: explicit slot at %s is the target argument of dup2: %s' % (_short(cb.root), cb.loc(ct), ok))
+        if not ok:
+            cx.violation(cb.root, 'explicit-slot', 'the simulated %s installs a descriptor at a number it chose itself (Process::set_fd) '
+                         'instead of the lowest free one: only dup2 names its target' % _short(cb.root), loc=cb.loc(ct))
+
+
+def _copy_root(body, du, operand, depth=12):
+    """The local an operand is a plain copy / move / reference of (copies followed back to a local that is computed)."""
+    p = Q.operand_place(operand)
+    while depth and p is not None:
+        depth -= 1
+        if any(e != '*' for e in (p.get('p') or [])):
+            return None
+        l = p['l']
+        d = du.single_def(l)
+        if d is None or d[1] == 't' or d[2]['k'] != 'assign':
+            return l
+        rv = d[2]['rv']
+        if rv['k'] == 'use' and Q.operand_place(rv['o']) is not None:
+            p = Q.operand_place(rv['o'])
+        elif rv['k'] == 'ref':
+            p = rv['pl']
+        else:
+            return l
+    return None
+
+
+def _is_empty_set(body, du, operand):
+    """The operand is `EnumSet::empty()` / `EnumSet::new()` / `Default::default()` (no flag)."""
+    if Q.operand_place(operand) is None:
+        return False
+    t = Q.value_source(body, du, operand)
+    return t is not None and bool(re.search(r'^enumset::impl_set::EnumSet::<T>::(empty|new)$|Default>::default$', pp.callee(t).split(' [')[0])) \
+        and not t['a']
+
+
+@RS.rule('C19.R29', 'K-SIBLING', 'open_tmpfile returns a descriptor WITHOUT close-on-exec on both systems: the simulated one installs an '
+         'FdBody whose flags are empty, so on the real system - where the descriptor comes from a std::fs::File, which is always opened '
+         'O_CLOEXEC - every Ok return has passed F_SETFD with an empty flag set on that descriptor. Otherwise a here-document that lands '
+         'exactly on its target descriptor (`exec 3<<EOF`: no dup2 in between) keeps FD_CLOEXEC on the real system only and the shell then '
+         'refuses it as one of its reserved descriptors')
+def r29(cx):
+    F = cx.F
+    vfn = _impl_fn(F, VIRT, 'Open::open_tmpfile')
+    rfn = _impl_fn(F, REAL, 'Open::open_tmpfile')
+    cx.require(vfn is not None and rfn is not None, 'open_tmpfile is not implemented by both systems')
+    cx.require(vfn in F.bodies and rfn in F.bodies, 'body of open_tmpfile missing')
+    cx.fn(vfn)
+    cx.fn(rfn)
+    # simulated side: the flags of the descriptor that is installed
+    vb = _kernel_inlined(F, F.bodies[vfn])
+    vdu = Q.DefUse(vb)
+    allocs = Q.find_calls(vb, [PROCESS + '::open_fd', PROCESS + '::open_fd_ge', PROCESS + '::set_fd'])
+    cx.require(allocs, 'the simulated open_tmpfile no longer installs a descriptor through Process::open_fd / open_fd_ge / set_fd')
+    fields = [f['name'] for f in F.adts[VKERNEL + '::io::FdBody']['variants'][0]['fields']] if VKERNEL + '::io::FdBody' in F.adts else []
+    cx.require('flags' in fields, 'FdBody has no field `flags` any more')
+    vstate = set()
+    for blk, t in allocs:
+        org = vdu.origin(t['a'][-1])
+        cx.require(org['k'] == 'agg' and str(org['rv'].get('adt')) == VKERNEL + '::io::FdBody',
+                   'the simulated open_tmpfile installs a descriptor body at %s that is not built in the function (not understood)' % vb.loc(t))
+        fo = org['rv']['ops'][fields.index('flags')]
+        if _is_empty_set(vb, vdu, fo):
+            vstate.add('empty')
+        else:
+            src = Q.value_source(vb, vdu, fo) if Q.operand_place(fo) is not None else None
+            cx.require(src is not None and pp.callee(src).split(' [')[0].endswith('EnumSet::<T>::only'),
+                       'the flags of the descriptor installed by the simulated open_tmpfile at %s are neither empty nor a single flag '
+                       '(not understood)' % vb.loc(t))
+            vstate.add('cloexec')
+    cx.require(len(vstate) == 1, 'the simulated open_tmpfile installs descriptors with different flags on different paths')
+    vstate = vstate.pop()
+    cx.site('%s: the descriptor is installed with %s flags' % (_short(vfn), 'EMPTY' if vstate == 'empty' else 'FD_CLOEXEC'))
+    # real side
+    rb = F.inlined(F.bodies[rfn])
+    rdu = Q.DefUse(rb)
+    oks = [(blk, st) for blk, j, st in Q.find_aggregates(rb, 'core::result::Result', 'Ok') if st['lhs']['l'] == 0]
+    cx.require(oks, 'the real open_tmpfile has no `Ok(fd)` return in its body (anchor moved)')
+    for blk, st in oks:
+        fdv = _copy_root(rb, rdu, st['rv']['ops'][0])
+        d = rdu.single_def(fdv) if fdv is not None else None
+        num = None
+        if d is not None and d[1] != 't' and d[2]['k'] == 'assign' and d[2]['rv']['k'] == 'agg' and str(d[2]['rv'].get('adt')) == FD_TY:
+            num = Q.value_source(rb, rdu, d[2]['rv']['ops'][0]) if Q.operand_place(d[2]['rv']['ops'][0]) is not None else None
+        from_file = num is not None and pp.callee(num).split(' [')[0].endswith('IntoRawFd>::into_raw_fd') and \
+            str((num.get('at') or [''])[0]) == 'std::fs::File'
+        cx.require(from_file, 'the descriptor returned by the real open_tmpfile at %s is no longer the raw descriptor of a std::fs::File '
+                   '(whether it is close-on-exec is not known to this rule)' % rb.loc(st))
+        src_blk = [b for b, t in rb.calls() if t is num][0]
+        clears, sets = set(), set()
+        for cblk, ct in rb.calls():
+            name = pp.callee(ct).split(' [')[0]
+            if Q.callee_is(ct, ['*::Fcntl::fcntl_setfd']) or name.endswith('::fcntl_setfd'):
+                if len(ct['a']) == 3 and _copy_root(rb, rdu, ct['a'][1]) == fdv:
+                    (clears if _is_empty_set(rb, rdu, ct['a'][2]) else sets).add(cblk)
+            elif name == 'libc::fcntl' or name.endswith('::libc::fcntl'):
+                cmd = ct['a'][1] if len(ct['a']) > 1 else {}
+                corg = rdu.origin(cmd) if Q.operand_place(cmd) is not None else {'k': 'const', 'o': cmd}
+                if str((corg.get('o') or {}).get('cdef') or '').endswith('::F_SETFD'):
+                    n = _int_value(rb, rdu, ct['a'][2]) if len(ct['a']) > 2 else None
+                    (clears if n == 0 else sets).add(cblk)
+        witness = Q.must_pass(rb, rb.succ(src_blk), clears, goal_blocks={blk})
+        # a later F_SETFD that sets a flag again undoes the clearing
+        reset = [c for c in sets if any(rb.reachable(x) and c in rb.reachable(x) for x in clears) and blk in rb.reachable(c)]
+        rstate = 'empty' if witness is None and clears and not reset else 'cloexec'
+        cx.site('%s: `Ok(%s)` at %s: descriptor of a std::fs::File (O_CLOEXEC); F_SETFD with an empty set on every path to it: %s (%d clearing '
+                'call(s))' % (_short(rfn), rb.local_name(fdv), rb.loc(st), rstate == 'empty', len(clears)))
+        cx.cellcount(1)
+        if rstate == vstate:
+            continue
+        if vstate == 'empty':
+            cx.violation(rfn, 'tmpfile-close-on-exec-differs', 'the real open_tmpfile returns the descriptor of a std::fs::File - opened '
+                         'O_CLOEXEC - without having cleared the descriptor flags (F_SETFD with an empty set) on every path, while the '
+                         'simulated one returns a descriptor with empty flags: a here-document opened at exactly its target descriptor '
+                         '(`exec 3<<EOF`, no dup2) stays close-on-exec on a real system only and later redirections from it are refused '
+                         'as "reserved file descriptor"', loc=rb.loc(st), path=Q.render_path(rb, witness) if witness else None)
+        else:
+            cx.violation(rfn, 'tmpfile-close-on-exec-differs', 'the simulated open_tmpfile installs a close-on-exec descriptor while the '
+                         'real one clears the flag: the two systems disagree on the flags of a here-document descriptor', loc=rb.loc(st))
+
+
+RS.explanation += (' Every descriptor allocation of the simulated kernel takes the lowest free descriptor - a lower bound other than 0 is '
+                   'only the F_DUPFD minimum of dup, an explicit slot only the target of dup2 (R28); open_tmpfile returns a descriptor without FD_CLOEXEC on both systems (R29).')
